@@ -24,7 +24,7 @@ var c10Axis = map[string]string{
 }
 
 func c10(c *core.Check) {
-	c.Explain = "Thin: structural necessary conditions of CSS 2.1 block sizing, decided on the SSA form: (R1) every used value computed by resolveOnePercentage is stored in the box field of the property it was read from, under that property's id, and is a percentage of the right dimension of the containing block (vertical margins and paddings refer to the width, except for page boxes); (R2) the min/max wrappers clamp to max first and min second (min wins), re-run the wrapped function after each clamp and only touch the fields of their own axis; (R3) the box-sizing adjustment subtracts padding and border for border-box, padding only for padding-box and nothing for content-box, per axis. The width equation (10.3.3), auto margins, margin collapsing and auto heights are numerical relations this family does not decide."
+	c.Explain = "Thin: structural necessary conditions of CSS 2.1 block sizing, decided on the SSA form: (R1) every used value computed by resolveOnePercentage is stored in the box field of the property it was read from, under that property's id, and is a percentage of the right dimension of the containing block (vertical margins and paddings refer to the width, except for page boxes); (R2) the min/max wrappers clamp to max first and min second (min wins), re-run the wrapped function after each clamp and only touch the fields of their own axis; (R3) the box-sizing adjustment subtracts padding and border for border-box, padding only for padding-box and nothing for content-box, per axis. The width equation (10.3.3), auto margins, margin collapsing and auto heights are numerical relations this family does not decide. Also decided: (R10) boolean conditions over box edges test each kind of edge on the same sides."
 	p := c.Prog
 	r1 := c.Rule("R1", "each `box.F = resolveOnePercentage(style.GetG(), P_H, ref, …)` has F = G = H and ref derived from the containing block's width for horizontal properties and for vertical margins/paddings (height only under the page-box test), from its height for top/bottom/heights", 21)
 	rop := p.Fn("html/layout", "resolveOnePercentage")
